@@ -8,6 +8,7 @@ from mc.barrier import allgather
 from mc.enumerate import lattice_points, multisets_upto
 from oracles import simple as OS
 
+CALL_VARIANTS = True   # every whitelisted persim call is repeated with its arrays in another memory layout (mc/ctx.py)
 PROPERTY = "C15"
 MS = [1, 2, 3, 10, 50]
 RULE = (
